@@ -112,6 +112,103 @@ func (g *gen) args() []N {
 	return out
 }
 
+// Carriers lists the forms of carrier(): expressions that evaluate to the value of a given
+// expression and on the way record a position of their own (a call, a member access, an operator,
+// an assignment, a construction), later than and - as a right operand, a key, an assigned value -
+// elsewhere than the first token of the expression they are an operand of.
+var Carriers = []string{"call", "dotcall", "seq-call", "seq-dot", "seq-idx", "seq-bin", "seq-rel", "seq-asg", "asg",
+	"arr-idx", "obj-dot", "cond", "and", "or", "seq-new", "nested"}
+
+// carrier: the globals z, ID (the identity function), AD, ao, ax, ay, aw are declared at the top of
+// every program.  None of the forms can raise.
+func (g *gen) carrier(v N, depth int) N {
+	k := g.pick(len(Carriers))
+	g.tag("carrier:" + Carriers[k])
+	seq := func(first N) N { return c01.Bin(",", first, v) }
+	switch Carriers[k] {
+	case "call":
+		return c01.Call(id("ID"), v)
+	case "dotcall":
+		return c01.Call(c01.Dot(id("ID"), "call"), c01.Null(), v)
+	case "seq-call":
+		return seq(c01.Call(id("z")))
+	case "seq-dot":
+		return seq(c01.Dot(id("ao"), "p"))
+	case "seq-idx":
+		return seq(c01.Dot(c01.Idx(id("ao"), str("q")), "r"))
+	case "seq-bin":
+		return seq(c01.Bin("+", id("ax"), id("ay")))
+	case "seq-rel":
+		return seq(c01.Bin("<", id("ax"), c01.Dot(id("ao"), "p")))
+	case "seq-asg":
+		return seq(c01.Asg("=", id("ax"), num(1+g.pick(4))))
+	case "asg":
+		return c01.Asg("=", id("aw"), v)
+	case "arr-idx":
+		return c01.Idx(c01.Arr(v), num(0))
+	case "obj-dot":
+		return c01.Dot(c01.Obj("k", v), "k")
+	case "cond":
+		return c01.Cond(c01.Dot(id("ao"), "p"), v, num(0))
+	case "and":
+		return c01.Bin("&&", c01.Dot(id("ao"), "p"), v)
+	case "or":
+		return c01.Bin("||", c01.Dot(id("ao"), "nothing"), v)
+	case "seq-new":
+		return seq(c01.New(id("AD"), c01.Dot(id("ao"), "p")))
+	default:
+		if depth >= 2 {
+			return c01.Call(id("ID"), v)
+		}
+		return c01.Call(id("ID"), g.carrier(v, depth+1))
+	}
+}
+
+// operand: an operand (of a binary operator, of an assignment, the object or the key of a member
+// expression) - as it is, or carried by an expression that records a position of its own.  The
+// position the enclosing expression records (11.8.6-7 TypeError, calls of valueOf / toString,
+// getters and setters, 15.4.5.1 RangeError) is applied after its operands are evaluated and must
+// still be its own.
+func (g *gen) operand(v N) N {
+	if g.chance(40) {
+		return v
+	}
+	g.tag("operand")
+	return g.carrier(v, 0)
+}
+
+// member: the member expression o.name / o["name"] with the object and the key as operands
+func (g *gen) member(o N, name string) N {
+	switch g.pick(4) {
+	case 0:
+		return c01.Dot(o, name)
+	case 1:
+		return c01.Dot(g.operand(o), name)
+	case 2:
+		return c01.Idx(o, g.operand(str(name)))
+	default:
+		return c01.Idx(g.operand(o), g.operand(str(name)))
+	}
+}
+
+// operators that convert an object operand with [[DefaultValue]] (11.5 - 11.10)
+var convOps = []string{"+", "-", "*", "%", "<", ">", "<=", ">=", "==", "!=", "&", "|", "^", "<<", ">>", ">>>"}
+
+// convExpr: o op n or n op o for an operator that converts the object operand o
+func (g *gen) convExpr(o N) N {
+	op := convOps[g.pick(len(convOps))]
+	if g.chance(50) {
+		return g.binOperands(op, o, num(1+g.pick(4)))
+	}
+	return g.binOperands(op, num(1+g.pick(4)), o)
+}
+
+// binOperands: l op r or r op l, each operand possibly carried
+func (g *gen) binOperands(op string, l, r N) N {
+	l, r = g.operand(l), g.operand(r)
+	return c01.Bin(op, l, r)
+}
+
 // errValue: what name / message are overwritten with
 func (g *gen) errValue() N {
 	switch g.pick(9) {
@@ -169,7 +266,7 @@ func (g *gen) errorConstruct(kind string) []N {
 		case 0:
 			return []N{c01.Expr(id(n))}
 		case 1:
-			return []N{c01.Expr(c01.Bin("+", num(1), id(n)))}
+			return []N{c01.Expr(c01.Bin("+", g.operand(num(1)), id(n)))}
 		case 2:
 			return []N{c01.Var(g.fresh("t"), id(n))}
 		case 3:
@@ -183,11 +280,11 @@ func (g *gen) errorConstruct(kind string) []N {
 		o, x := g.fresh("o"), g.fresh("x")
 		switch g.pick(6) {
 		case 0:
-			return []N{c01.Var(o, c01.Obj()), c01.Expr(c01.Call(c01.Dot(id(o), "m"), g.args()...))}
+			return []N{c01.Var(o, c01.Obj()), c01.Expr(c01.Call(g.member(id(o), "m"), g.args()...))}
 		case 1:
 			return []N{c01.Var(x, num(5)), c01.Expr(c01.Call(id(x), g.args()...))}
 		case 2:
-			return []N{c01.Var(o, c01.Obj()), c01.Expr(c01.Call(c01.Idx(id(o), str("m")), num(1)))}
+			return []N{c01.Var(o, c01.Obj()), c01.Expr(c01.Call(c01.Idx(id(o), g.operand(str("m"))), num(1)))}
 		case 3:
 			g.tag("nonref")
 			return []N{c01.Expr(c01.Call(c01.Bin(",", num(0), num(5))))}
@@ -207,13 +304,13 @@ func (g *gen) errorConstruct(kind string) []N {
 		}
 		switch g.pick(6) {
 		case 0:
-			return []N{decl, c01.Expr(c01.Dot(id(u), "p"))}
+			return []N{decl, c01.Expr(g.member(id(u), "p"))}
 		case 1:
-			return []N{decl, c01.Expr(c01.Idx(id(u), str("p")))}
+			return []N{decl, c01.Expr(c01.Idx(id(u), g.operand(str("p"))))}
 		case 2:
 			return []N{c01.Var(o, c01.Obj()), c01.Expr(c01.Dot(c01.Dot(id(o), "a"), "b"))}
 		case 3:
-			return []N{decl, c01.Expr(c01.Asg("=", c01.Dot(id(u), "p"), num(1)))}
+			return []N{decl, c01.Expr(c01.Asg("=", g.member(id(u), "p"), g.operand(num(1))))}
 		case 4:
 			return []N{decl, c01.Expr(c01.Call(c01.Dot(id(u), "p")))}
 		default:
@@ -230,24 +327,47 @@ func (g *gen) errorConstruct(kind string) []N {
 			return []N{c01.Var(o, c01.Obj()), c01.Var(g.fresh("t"), c01.New(id(o)))}
 		}
 	case "instof":
+		// 11.8.6 step 5-6 / 11.8.7 step 5: the right operand is not an object (instanceof: or has no
+		// [[HasInstance]]) x both operands as they are or carried by a position-recording expression
 		o := g.fresh("o")
+		decl := c01.Var(o, c01.Obj())
+		var e N
+		if g.chance(50) {
+			ls := []N{id(o), num(1), str("a"), c01.Null(), c01.Obj()}
+			rs := []N{num(5), str("b"), c01.Bool(true), c01.Null(), c01.Undefined(), id(o), c01.Arr(), c01.Obj("a", num(1))}
+			e = g.binOperands("instanceof", ls[g.pick(len(ls))], rs[g.pick(len(rs))])
+		} else {
+			ls := []N{str("a"), num(0), str("length"), id(o)}
+			rs := []N{num(5), str("b"), c01.Bool(false), c01.Null(), c01.Undefined()}
+			e = g.binOperands("in", ls[g.pick(len(ls))], rs[g.pick(len(rs))])
+		}
 		switch g.pick(4) {
 		case 0:
-			return []N{c01.Var(o, c01.Obj()), c01.Expr(c01.Bin("instanceof", id(o), num(5)))}
+			return []N{decl, h(e)}
 		case 1:
-			return []N{c01.Var(o, c01.Obj()), c01.Expr(c01.Bin("instanceof", num(1), id(o)))}
-		case 2:
-			return []N{c01.Expr(c01.Bin("in", str("a"), num(5)))}
+			return []N{decl, c01.Var(g.fresh("t"), e)}
 		default:
-			return []N{h(c01.Bin("in", str("a"), str("b")))}
+			return []N{decl, c01.Expr(e)}
 		}
 	case "arrlen":
+		// 15.4.5.1 step 3.c: the RangeError is raised where the assignment is applied, after the
+		// object, the key and the assigned value (each possibly carried) are evaluated
 		a := g.fresh("a")
-		switch g.pick(3) {
+		bad := func() N { return g.operand(num([]int{-1, -2, -7}[g.pick(3)])) }
+		switch g.pick(5) {
 		case 0:
-			return []N{c01.Var(a, c01.Arr(num(1))), c01.Expr(c01.Asg("=", c01.Dot(id(a), "length"), num(-1)))}
+			return []N{c01.Var(a, c01.Arr(num(1))), c01.Expr(c01.Asg("=", c01.Dot(id(a), "length"), bad()))}
 		case 1:
-			return []N{c01.Var(a, c01.Arr()), c01.Expr(c01.Asg("=", c01.Idx(id(a), str("length")), num(-2)))}
+			return []N{c01.Var(a, c01.Arr()), c01.Expr(c01.Asg("=", c01.Idx(id(a), str("length")), bad()))}
+		case 2:
+			return []N{c01.Var(a, c01.Arr(num(1), num(2))), c01.Expr(c01.Asg("=", g.member(id(a), "length"), bad()))}
+		case 3:
+			// compound assignment: 2 - 5, 2 * -1 ... is not an array length
+			op, v := "-", 5
+			if g.chance(50) {
+				op, v = "*", -1
+			}
+			return []N{c01.Var(a, c01.Arr(num(1), num(2))), c01.Expr(c01.Asg(op, g.member(id(a), "length"), g.operand(num(v))))}
 		default:
 			return []N{c01.Var(a, c01.Arr(num(1), num(2))),
 				c01.Expr(c01.Call(c01.Dot(id("Object"), "defineProperty"), id(a), str("length"), c01.Obj("value", num(-1))))}
@@ -368,10 +488,10 @@ func (g *gen) errorConstruct(kind string) []N {
 			return []N{c01.Expr(c01.Call(c01.Dot(c01.Dot(id("z"), "call"), "call"), num(1)))}
 		case 7:
 			ret := func() N { return c01.Fn("", nil, c01.Return(c01.Obj())) }
-			return []N{c01.Var(o, c01.Obj("toString", ret(), "valueOf", ret())), c01.Expr(c01.Bin("+", id(o), num(1)))}
+			return []N{c01.Var(o, c01.Obj("toString", ret(), "valueOf", ret())), c01.Expr(g.convExpr(id(o)))}
 		default:
 			return []N{c01.Var(f, c01.Fn("", nil)), c01.Expr(c01.Asg("=", c01.Dot(id(f), "prototype"), num(1))),
-				c01.Expr(c01.Bin("instanceof", c01.Obj(), id(f)))}
+				c01.Expr(g.binOperands("instanceof", c01.Obj(), id(f)))}
 		}
 	case "throwprim":
 		vs := []N{num(5), str("s"), c01.Null(), c01.Bool(true), num(-1), str("")}
@@ -419,9 +539,9 @@ func (g *gen) context(kind string, body []N) (decls []N, inv N) {
 	case "nfe":
 		return []N{c01.Var(f, c01.Fn(g.fresh("n"), nil, body...))}, c01.Call(id(f), g.args()...)
 	case "mdot":
-		return []N{c01.Var(f, c01.Obj("m", c01.Fn("", nil, body...)))}, c01.Call(c01.Dot(id(f), "m"), g.args()...)
+		return []N{c01.Var(f, c01.Obj("m", c01.Fn("", nil, body...)))}, c01.Call(g.member(id(f), "m"), g.args()...)
 	case "midx":
-		return []N{c01.Var(f, c01.Obj("m", c01.Fn(g.fresh("n"), nil, body...)))}, c01.Call(c01.Idx(id(f), str("m")), g.args()...)
+		return []N{c01.Var(f, c01.Obj("m", c01.Fn(g.fresh("n"), nil, body...)))}, c01.Call(c01.Idx(id(f), g.operand(str("m"))), g.args()...)
 	case "ctor":
 		if g.chance(50) {
 			// the constructor is reached through a member expression: new o.C(args)
@@ -445,12 +565,19 @@ func (g *gen) context(kind string, body []N) (decls []N, inv N) {
 		g.tag("nonref")
 		return nil, c01.EvalCall(false, body...)
 	case "getter":
-		return []N{c01.Var(f, c01.WithAccessor(c01.Obj(), "get", "p", c01.Fn("", nil, body...)))}, c01.Dot(id(f), "p")
+		return []N{c01.Var(f, c01.WithAccessor(c01.Obj(), "get", "p", c01.Fn("", nil, body...)))}, g.member(id(f), "p")
 	case "setter":
-		return []N{c01.Var(f, c01.WithAccessor(c01.Obj(), "set", "p", c01.Fn("", []string{"v"}, body...)))}, c01.Asg("=", c01.Dot(id(f), "p"), num(1))
+		return []N{c01.Var(f, c01.WithAccessor(c01.Obj(), "set", "p", c01.Fn("", []string{"v"}, body...)))},
+			c01.Asg([]string{"=", "=", "+", "-"}[g.pick(4)], g.member(id(f), "p"), g.operand(num(1+g.pick(3))))
 	case "valueof":
 		b := append(append([]N{}, body...), c01.Return(num(1)))
-		return []N{c01.Var(f, c01.Obj("valueOf", c01.Fn("", nil, b...)))}, c01.Bin("+", id(f), num(1))
+		// the conversion is called by any operator of 11.5 - 11.10, from either side; with toString only,
+		// [[DefaultValue]] (8.12.8) goes through the inherited valueOf first
+		conv := "valueOf"
+		if g.chance(30) {
+			conv = "toString"
+		}
+		return []N{c01.Var(f, c01.Obj(conv, c01.Fn("", nil, b...)))}, g.convExpr(id(f))
 	case "iife":
 		g.tag("nonref")
 		return nil, c01.Call(c01.Fn("", nil, body...))
@@ -574,7 +701,7 @@ func (g *gen) scenario(i int) Scenario {
 			body = append(body, c01.Expr(c01.Call(id("z"))))
 		}
 	}
-	head := []N{c01.FDecl("z", nil), c01.FDecl("AD", nil),
+	head := []N{c01.FDecl("z", nil), c01.FDecl("AD", nil), c01.FDecl("ID", []string{"v"}, c01.Return(id("v"))), c01.Var("aw", nil),
 		c01.Var("ao", c01.Obj("p", num(1), "q", c01.Obj("r", num(2)))), c01.Var("ax", num(1)), c01.Var("ay", num(2))}
 	prog := append(append(head, g.pre...), body...)
 	limits := []int{10, 10, 10, 0, 1, 2, 3, 4, 5, 6, 7, 8, 9, 11, 12, depth + 1, depth + 2, depth, 2, 1}
